@@ -22,6 +22,9 @@ fuzz_target!(|data: &[u8]| {
     let known = KNOWN.get_or_init(|| vpcheck::driver::load_known(prop.id()));
     let mut cx = Ctx::new(known, false, cfg!(debug_assertions));
     if let Err(f) = prop.run_case(&mut ch, &mut cx) {
-        panic!("VIOLATION property={} signature={} detail={}", prop.id(), f.sig, f.detail);
+        // a failure that carries the signature of a recorded known finding is tolerated, as in the proptest drivers
+        if let Err(f) = cx.report(f) {
+            panic!("VIOLATION property={} signature={} detail={}", prop.id(), f.sig, f.detail);
+        }
     }
 });
